@@ -34,6 +34,16 @@ Definition has_key {A} (k : string) (l : list (string * A)) : bool :=
   match lookup k l with Some _ => true | None => false end.
 Definition keys {A} (l : list (string * A)) : list string := map fst l.
 
+(* keys in byte order, as encoding/json writes a Go map *)
+Fixpoint insert_sorted {A} (k : string) (v : A) (l : list (string * A)) : list (string * A) :=
+  match l with
+  | [] => [(k, v)]
+  | (k', v') :: t => if String.eqb k k' then (k, v) :: t
+                     else if String.ltb k k' then (k, v) :: l else (k', v') :: insert_sorted k v t
+  end.
+Definition sort_keys {A} (l : list (string * A)) : list (string * A) := fold_left (fun acc kv => insert_sorted (fst kv) (snd kv) acc) l [].
+
+
 (* ---------- results ---------- *)
 Inductive res (A : Type) := Ok (a : A) | Err (msg : string).
 Arguments Ok {A}. Arguments Err {A}.
